@@ -2,6 +2,7 @@
 import glob
 import json
 import os
+import re
 
 from vlib import core
 from checks import c14_cases as cc
@@ -12,7 +13,7 @@ META = {
     "extract": "C14.v",
     "technique": "Coq proof about a token-level model of the AST printer and of the grammar (precedence-climbing parser parameterised by the operator table regenerated from grammar.lalrpop on every run); model tied to the Rust code by differential runs on generated ASTs (same token stream from the real printer + real lexer, same re-parsed tree); direct oracle on the implementation: parse -> print -> parse gives the same position-erased tree, printing is a fixpoint, layout width does not matter, evaluation is unchanged, over generated ASTs and every .ncl file of the repository under token mutation",
     "level_text": "Theorems (coq/Props/C14.v, proofs in coq/Surface/RoundTrip.v): op_table_wf — the operator table generated from grammar.lalrpop/lexer.rs/primop.rs/pretty.rs on every run has what the round trip needs (each operator the printer emits is read back as the same primop with the same laziness, the arrow is the loosest operator and right-associative, prefix operators bind tighter than it, no operator text starts an atom); parse_print_core — for every table satisfying that check and every term t of the expression core (literals, variables, strings with interpolation, enum tags/variants, arrays, application, strict and lazy infix operators of every level, negation, %primop% applications, static access, imports, if, fun/let with variable patterns, annotations with base/contract/arrow/array types, records with simple fields), parse (print t) = Some t, hence print_fixpoint_core; multiline_delim_safe — for the percent count the printer chooses, the automaton of the lexer's multiline-string mode reads the printed characters back as exactly the chunks; refuting witnesses for each of the ten printer/parser defects of the pinned commit and their round trip in the model of the repaired code. The model printer mirrors pretty.rs case by case over the whole surface syntax (is_atom, parens_if, needs_parens_in_type_pos, pattern parenthesisation, quoting of identifiers, string style and percent count, number rendering, multiline_roundtrips/strip_indent); outside the proved fragment the full statements (C14_full_parse_print, C14_full_image_closed: for every t with parser_image t = true, parse (print t) = Some t; every tree the parser returns satisfies parser_image) are type-checked definitions whose instances are checked by execution only, with parser_image (coq/Surface/Image.v) an executable predicate over the whole AST evaluated on every parsed program and every generated tree; core_in_image — the proved fragment lies inside parser_image.",
-    "level_note": "Trusted: Coq kernel; extraction (ExtrOcamlBasic, ExtrOcamlNativeString); the translator checks/c14_gen.py (syntactic, fails closed); the hand-written model's reading of pretty.rs and of the grammar, validated only by the correspondence runs; the s-expression glue on both sides; logos/LALRPOP generated code, malachite number parsing/printing, the `pretty` layout engine. String escapes and identifiers are opaque tokens (C13). The formatter (topiary) is external and not covered.",
+    "level_note": "Trusted: Coq kernel; extraction (ExtrOcamlBasic, ExtrOcamlNativeString); the translator checks/c14_gen.py (syntactic, fails closed); the hand-written model's reading of pretty.rs and of the grammar, validated only by the correspondence runs; the s-expression glue on both sides; logos/LALRPOP generated code, malachite number parsing/printing, the `pretty` layout engine. String escapes and identifiers are opaque tokens (C13). The formatter (topiary) is external and not covered. When the translator, a proof or the extraction fails, the direct oracle (corpus, repository files, mutants, generated trees, every PrimOp constructor) still runs without the model and reports concrete witnesses.",
 }
 
 FILES_EXCLUDE = ("/target/",)
@@ -39,10 +40,37 @@ def unesc(s):
 
 # ----------------------------------------------------------------------------------- translator
 
-def write_table():
+def canonicalise(t, ops):
+    """Rename the operators of the tables from what `Display` prints to the harness's canonical
+    names (the identity as long as nobody renames a primop), so that the model and the harness
+    dumps keep speaking about the same constructor if an operator is renamed consistently."""
+    ren = {}
+    for o in ops:
+        if o["canon"] in NOT_IN_IMAGE:
+            continue
+        ren.setdefault(o["display"], set()).add(o["canon"])
+    amb = {d: sorted(c) for d, c in ren.items() if len(c) > 1}
+    if amb:
+        return amb          # two constructors print alike: leave the names alone, the caller reports it
+    f = lambda n: next(iter(ren[n])) if n in ren else n
+    fk = lambda k: re.sub(r'"([^"]*)"', lambda m: '"%s"' % f(m.group(1)), k)
+    t["binops"] = [(sp, lvl, a, fk(k)) for sp, lvl, a, k in t["binops"]]
+    t["prefixops"] = [(sp, lvl, a, fk(k)) for sp, lvl, a, k in t["prefixops"]]
+    t["primops"] = [(sp, f(n), ar) for sp, n, ar in t["primops"]]
+    t["op_spelling"] = [(f(n), sp) for n, sp in t["op_spelling"]]
+    t["infix_ops"] = [f(n) for n in t["infix_ops"]]
+    t["postfix_ops"] = [f(n) for n in t["postfix_ops"]]
+    return None
+
+
+def write_table(ops=None):
     """Read the tables from the working tree of the repository and (re)write coq/Gen/OpTable.v.
+    `ops` is what the implementation itself says about every PrimOp value (harness_primops);
+    it replaces the Display table of the source text when that one cannot be read.
     Raises c14_gen.TranslatorError on anything the translator cannot read."""
-    t = c14_gen.read_tables(core.REPO)
+    dyn = {o["debug"]: o["display"] for o in ops} if ops else None
+    t = c14_gen.read_tables(core.REPO, dyn)
+    t["display_ambiguous"] = canonicalise(t, ops) if ops else None
     txt = c14_gen.render_coq(t)
     d = os.path.join(core.COQ, "Gen")
     os.makedirs(d, exist_ok=True)
@@ -55,18 +83,51 @@ def write_table():
     return t
 
 
+def harness_primops():
+    """every PrimOp value, asked from the implementation: canonical (harness) name, Debug, Display,
+    arity, positioning; None if the harness cannot be asked"""
+    try:
+        rc, res, err = run_impl(["primops"])
+        if rc or not res or not res[0] or res[0][0].startswith("ERR"):
+            return None
+        names = res[0][0].split(" ")
+        rc, res, err = run_impl(["primop\t" + esc(n) for n in names])
+        if rc or len(res) != len(names):
+            return None
+        ops = []
+        for r in res:
+            if len(r) != 5:
+                return None
+            ops.append({"canon": unesc(r[0]), "debug": unesc(r[1]), "display": unesc(r[2]), "arity": int(r[3]), "pos": r[4]})
+        return ops
+    except (OSError, ValueError):
+        return None
+
+
 def setup_gen():
     """called by `./verif setup` before the Coq build (coq/Gen is not committed)"""
-    write_table()
+    try:
+        write_table()
+    except c14_gen.TranslatorError:
+        # the table of names cannot be read from the source text: ask the implementation
+        rc, out = core.cargo_build(["c14"])
+        ops = harness_primops() if rc == 0 else None
+        if ops is None:
+            raise
+        write_table(ops)
 
 
-def gen_table(ck):
+def gen_table(ck, ops=None):
     """Regenerate coq/Gen/OpTable.v from the working tree of the repository."""
     try:
-        t = write_table()
+        t = write_table(ops)
     except c14_gen.TranslatorError as ex:
         ck.obligation("translator:optable " + str(ex)[:150], "translator", False, str(ex))
         return None
+    ck.coverage["primop_names_from"] = ("impl Display for PrimOp read from the source text" if t["display_source"] == "static"
+                                        else "Display called on every PrimOp value by the harness (the source text of impl Display could not be read)")
+    if t["display_source"] != "static":
+        ck.log("note: impl Display for PrimOp could not be read from the source text; names obtained by running it")
     ck.coverage.setdefault("generated_tables", []).append({"file": "Gen/OpTable.v", "source_sha": t["source_sha"]})
     base = os.path.join(core.ROOT, "corpus", "C14", "optable.baseline.json")
     cur = {"binops": [list(x) for x in t["binops"]], "prefixops": [list(x) for x in t["prefixops"]]}
@@ -79,6 +140,73 @@ def gen_table(ck):
             ck.log("note: the operator table differs from the recorded baseline (the model follows it):",
                    ck.coverage["operator_table_changed_since_baseline"])
     return t
+
+
+# values of PrimOp that have no concrete syntax (the parser never produces them)
+NOT_IN_IMAGE = ("force!ine", "(&)!piecewise", "label/with_error_data")
+
+
+def primop_app_sexp(o):
+    """the application of one operator to variables, as the parser would build it"""
+    q = lambda x: '"%s"' % x
+    n, ar = o["canon"], o["arity"]
+    xs = ['(var "x%d")' % (i + 1) for i in range(max(ar, 1))]
+    if n in ("(&&)", "(||)"):
+        return '(app (op %s (var "x1")) (var "x2"))' % q(n)
+    if n == "record/get":
+        return '(op "record/get" (chunks (expr (var "x1") 0)) (var "x2"))'
+    return "(op %s %s)" % (q(n), " ".join(xs[:ar]))
+
+
+def enumerate_primops(ck, ops):
+    """Every PrimOp constructor once, built on the Rust side, printed by the real printer and read
+    back by the real parser: the nodes must be equal.  Needs no table and no model."""
+    src = open(os.path.join(core.REPO, "parser/src/ast/primop.rs"), encoding="utf-8").read()
+    m = re.search(r"pub enum PrimOp \{(.*?)\n\}", src, flags=re.S)
+    declared = None
+    if m:
+        body = re.sub(r"//[^\n]*", "", m.group(1))
+        body = re.sub(r"#\[cfg\(feature[^\]]*\)\]\s*[A-Za-z0-9_]+[^,]*,", "", body)     # feature-gated constructors
+        body = re.sub(r"#\[[^\]]*\]", "", body)
+        declared = set(re.findall(r"^\s*([A-Z][A-Za-z0-9_]*)\s*(?:,|\(|\{)", body, flags=re.M))
+    heads = set(re.match(r"[A-Za-z0-9_]+", o["debug"]).group(0) for o in ops) | {"RecordStatAccess", "EnumEmbed"}
+    ck.coverage["primop_constructors"] = {"declared_in_primop_rs": len(declared) if declared else None, "enumerated_by_harness": len(heads)}
+    if declared is not None and declared != heads:
+        ck.obligation("harness-protocol:primop-enumeration", "internal", False,
+                      "constructors of PrimOp in primop.rs and in the harness table differ: %s" % sorted(declared ^ heads))
+    # how many arguments the grammar gives to `%name%`: asked from the parser itself (PrimOp::arity is
+    # a separate table of the implementation; where they differ it is noted, and the grammar wins)
+    probes = [(o, k) for o in ops if o["pos"] == "Prefix" and o["canon"] not in NOT_IN_IMAGE + ("bool/not",) for k in range(1, 6)]
+    rc, res, err = run_impl(["parse\t" + esc("%" + o["display"] + "% " + " ".join("x%d" % (i + 1) for i in range(k))) for o, k in probes])
+    parsed_arity = {}
+    if not rc and len(res) == len(probes):
+        for (o, k), r in zip(probes, res):
+            if len(r) >= 2 and r[0] != "P" and unesc(r[1]) == primop_app_sexp(dict(o, arity=k)):
+                parsed_arity[o["canon"]] = max(k, parsed_arity.get(o["canon"], 0))
+    differ = {o["canon"]: {"PrimOp::arity": o["arity"], "grammar": parsed_arity[o["canon"]]}
+              for o in ops if o["canon"] in parsed_arity and parsed_arity[o["canon"]] != o["arity"]}
+    if differ:
+        ck.coverage["primop_arity_differs_from_grammar"] = differ
+    ops = [dict(o, arity=parsed_arity.get(o["canon"], o["arity"])) for o in ops]
+    cases = [(o["canon"], primop_app_sexp(o)) for o in ops if o["canon"] not in NOT_IN_IMAGE]
+    cases += [("stat_access", '(op (stat_access "f") (var "x1"))'), ("enum_embed", '(op (enum_embed "t") (var "x1"))')]
+    rc, res, err = run_impl(["build\t" + esc(sx) for _, sx in cases])
+    if rc or len(res) != len(cases):
+        ck.obligation("harness-run:primop-enumeration", "internal", False, "rc=%s %s" % (rc, err[-800:]))
+        return
+    for (name, sx), r in zip(cases, res):
+        r = (r + [""] * 5)[:5]
+        status, printed, detail, reparsed = r[1], unesc(r[2]), unesc(r[3]), unesc(r[4])
+        ck.case(key="primop:" + sx, nontrivial=True)
+        ck.hist("primop-enumeration:status", status)
+        if status.startswith("ERR"):
+            ck.obligation("harness-builder:primop-enumeration", "internal", False, "%s on %s" % (status[:200], sx))
+        elif status != "OK":
+            ck.violation("primop-roundtrip:" + name,
+                         "the operator %s is printed as `%s`, which the parser reads back as %s (%s)" % (name, printed.strip()[:80], reparsed[:120], status),
+                         {"origin": "every PrimOp constructor once", "kind": status, "witness_sexp": sx, "printed": printed[:2000],
+                          "detail": detail[:2000], "reparsed": reparsed[:2000], "expected": "the parser reads the printed text back as " + sx,
+                          "how_to_replay": "./verif check C14 --replay <this file>"})
 
 
 # ------------------------------------------------------------------------------------- runners
@@ -129,12 +257,45 @@ def norm_dump(d):
 
 # ------------------------------------------------------------------- classification / minimising
 
-def minimise(dump):
-    """minimal sub-terms of a failing tree that fail the direct oracle on their own"""
+def diff_terms(a, b, out, enclosing=None):
+    """the innermost term nodes of `a` inside which the trees `a` and `b` differ"""
+    if a == b and type(a) is type(b):
+        return out
+    if isinstance(a, list) and isinstance(b, list) and len(a) == len(b):
+        enc = a if cc.is_term(a) else enclosing
+        for x, y in zip(a, b):
+            diff_terms(x, y, out, enc)
+        return out
+    t = enclosing if enclosing is not None else a
+    if not any(t is o for o in out):
+        out.append(t)
+    return out
+
+
+def minimise(dump, other=None):
+    """minimal sub-terms of a failing tree that fail the direct oracle on their own.  `other`: the
+    tree that re-parsing gave (when it differs): the places where the two differ are tried first,
+    which finds the witness inside a large program (the whole standard library) at once."""
     try:
         t = cc.sx_parse(dump)
     except Exception:
         return []
+    first = []
+    if other:
+        try:
+            first = [cc.show(x) for x in diff_terms(t, cc.sx_parse(other), [])[:24]]
+        except Exception:
+            first = []
+    if first:
+        rc, res, err = run_impl(["build\t" + esc(x) for x in first])
+        bad = [x for x, r in zip(first, res) if len(r) > 1 and r[1] not in ("OK",) and not r[1].startswith("ERR")]
+        if bad:
+            out = []
+            for x in bad[:3]:
+                for w in (minimise(x) or [x]):
+                    if w not in out:
+                        out.append(w)
+            return out
     subs = cc.subterms(t, [])
     strs = []
     for s in subs:
@@ -275,7 +436,7 @@ def report_direct(ck, origin, kind, dump, printed, detail, source=None):
         ck.violation("roundtrip:more", "further failing cases of the direct oracle (not minimised, see the evidence counters)",
                      {"origin": origin, "kind": kind, "tree": dump[:4000], "printed": printed[:2000]})
         return
-    wits = minimise(dump) if dump else []
+    wits = minimise(dump, detail if kind == "TD" else None) if dump else []
     if not wits:
         wits = [dump or ""]
     for w in wits[:3]:
@@ -359,6 +520,22 @@ def tie_on_asts(ck, exe_model, sexps, in_image, label):
     lines_i = ["build\t" + esc(s) for s in sexps]
     lines_m = ["print\t" + esc(s) for s in sexps]
     rc1, ri, e1 = run_impl(lines_i)
+    if exe_model is None:
+        # no model (translator or proof broken): the direct oracle alone
+        if not in_image:
+            return
+        if rc1:
+            ck.obligation("harness-run:" + label, "internal", False, "rc=%s %s" % (rc1, e1[-800:]))
+        for s, a in zip(sexps, ri):
+            ck.case(key=s, nontrivial=s.count("(") >= 6)
+            a = (a + [""] * 5)[:5]
+            istatus = a[1]
+            ck.hist(label + ":impl_status", istatus)
+            if istatus.startswith("ERR"):
+                ck.obligation("harness-builder:" + label, "internal", False, "%s on %s" % (istatus[:200], s[:300]))
+            elif istatus != "OK":
+                report_direct(ck, label, istatus, s, unesc(a[2]), unesc(a[3]))
+        return
     rc2, rm, e2 = run_model(exe_model, lines_m)
     if rc1 or rc2:
         ck.obligation("correspondence-run:" + label, "internal", False, "rc=%s/%s %s %s" % (rc1, rc2, e1[-500:], e2[-500:]))
@@ -414,6 +591,8 @@ def tie_on_asts(ck, exe_model, sexps, in_image, label):
 
 def tie_on_parse(ck, exe_model, sources, label):
     """model parser vs real parser on real token streams"""
+    if exe_model is None:
+        return
     lines = ["parse\t" + esc(s) for _, s in sources]
     rc, res, err = run_impl(lines)
     todo = []
@@ -459,17 +638,44 @@ def raise_stack_limit():
         pass
 
 
+def prefix_primops_of(ops):
+    """(spelling, name, arity) of the `%name%` operators, from what the implementation says about
+    its PrimOp values: what the generator needs when the tables cannot be read"""
+    special = set(NOT_IN_IMAGE) | {"bool/not", "(&&)", "(||)", "record/get"}
+    return [("%" + o["display"] + "%", o["canon"], o["arity"]) for o in ops
+            if o["pos"] == "Prefix" and o["canon"] not in special and o["arity"] >= 1]
+
+
 def run(ck):
     tier = ck.tier
     raise_stack_limit()
-    tables = gen_table(ck)
-    ck.coq("Props.C14", extra_targets=["Surface/Io.vo"], clean=False)
+    # the harness first: it needs nothing that is generated, and the direct oracle needs only it
     ok = ck.harness(["c14"])
-    exe_model = ck.model("C14.v")
-    if not ok or not exe_model or tables is None:
+    ops = harness_primops() if ok else None
+    if ok and ops is None:
+        ck.obligation("harness-protocol:primops", "internal", False, "the harness does not answer the `primops` request")
+    tables = gen_table(ck, ops)
+    if tables and tables.get("display_ambiguous"):
+        ck.obligation("translator:primop-names-injective", "translator", False,
+                      "two PrimOp constructors are printed under the same name: %s" % tables["display_ambiguous"])
+    coq_ok = ck.coq("Props.C14", extra_targets=["Surface/Io.vo"], clean=False)
+    exe_model = ck.model("C14.v") if tables is not None else None
+    if not ok:
         return
+    if tables is None or not coq_ok or not exe_model:
+        # DESIGN 1.4: a broken translator / proof does not stop the search.  Everything below that
+        # does not need the model still runs: the direct oracle on the corpus, the repository, the
+        # mutants, the generated trees and every PrimOp constructor.
+        exe_model = None
+        ck.log("no model (translator, proof or extraction failed): direct oracle only")
+        ck.coverage["model_ties"] = "not run: no model"
     rng = core.SplitMix64(ck.seed * 1000003 + 14)
     probe_variant(ck)
+
+    # ---- every PrimOp constructor once
+    if ops:
+        enumerate_primops(ck, ops)
+        ck.log("primop enumeration done")
 
     # ---- corpus first: past findings and hand-picked witnesses
     cor = corpus_cases()
@@ -509,7 +715,7 @@ def run(ck):
 
     # ---- generated ASTs inside the parser's image: direct oracle + both ties
     n = 3000 if tier == "quick" else 60000
-    primops = [(sp, name, ar) for sp, name, ar in tables["primops"]]
+    primops = [(sp, name, ar) for sp, name, ar in tables["primops"]] if tables else prefix_primops_of(ops or [])
     sexps = []
     for i in range(n):
         g = cc.Gen(rng.fork(), primops, max_depth=rng.choice([2, 3, 3, 4, 4, 5]))
@@ -526,13 +732,13 @@ def run(ck):
     for s in sexps[:4]:
         ck.sample({"generated_tree": s[:400]})
 
-    ck.coverage["rule"] = ("direct oracle: parse -> print(width 80) -> parse gives the same position-erased tree (s-expression dump incl. forall kinds and wildcard ids), print again is identical, widths 0/200 re-parse to the same tree, evaluation (typecheck + export, 300k steps) gives the same canonical outcome, runtime-term printer output parses and is a textual fixpoint; "
+    ck.coverage["rule"] = ("direct oracle: parse -> print(width 80) -> parse gives the same position-erased tree (s-expression dump incl. forall kinds and wildcard ids), print again is identical, widths 0/200 re-parse to the same tree, evaluation (typecheck + export, 300k steps) gives the same canonical outcome, runtime-term printer output parses and is a textual fixpoint; every PrimOp value (enumerated on the Rust side through an exhaustive match, count compared with the enum in primop.rs) applied to variables with the arity the parser itself gives to its `%name%`, printed and re-parsed to the same node; operators are compared by constructor (the harness's own names), never through Display; "
                            "inputs: corpus/C14, every .ncl under /repo, token-level mutants of them (delete/duplicate/swap/replace/insert/parenthesise, number literals replaced by long ones), seeded random ASTs inside the parser's image over the whole surface syntax (depth <= 5) and a stream outside of it for the model ties; "
                            "non-trivial = source > 20 chars / tree with >= 6 nodes; distinct by exact text")
     ck.coverage["partial"] = ("parse_print/print_fixpoint are proved for the expression core; match and patterns, record metadata, piecewise/quoted/interpolated field paths, open records, includes, let metadata, forall/record/enum/dict types, types in term position, %enum/embed% are covered by the executed model round trip and the direct oracle only; parser_image closed under parse is not proved (it is checked on every parsed program by execution); "
                               "topiary formatter not covered; symbolic strings are only parsed by the implementation (never printed); include identifiers that are metadata keywords and identifiers named `or` in patterns are not generated; the model parser accepts a superset of the real one (type-variable kind mismatches, features disabled at compile time), so parser_image is the image of the model parser and the generator respects the kind discipline by construction")
     ck.trusted += ["extraction: ExtrOcamlBasic + ExtrOcamlNativeString", "harness bin c14 (s-expression dump/builder, token regrouping)",
-                   "ocaml/c14/driver.ml (s-expression glue)", "translator checks/c14_gen.py", "generator checks/c14_cases.py (SplitMix64, VERIF_SEED)"]
+                   "ocaml/c14/driver.ml (s-expression glue)", "translator checks/c14_gen.py (the table of primop names is the source text of impl Display when it can be read, checked against what Display returns on every value; otherwise what Display returns)", "generator checks/c14_cases.py (SplitMix64, VERIF_SEED)"]
     ck.assumptions += ["string escapes and identifier lexing are opaque (C13)", "malachite prints/parses decimal numbers exactly",
                        "the `pretty` crate only inserts whitespace"]
 
@@ -540,11 +746,12 @@ def run(ck):
 def replay(ck, path):
     raise_stack_limit()
     obj = json.load(open(path))
-    tables = gen_table(ck)
     ok = ck.harness(["c14"])
-    exe_model = ck.model("C14.v")
-    if not ok or not exe_model:
+    if not ok:
         return
+    ops = harness_primops()
+    tables = gen_table(ck, ops)
+    exe_model = ck.model("C14.v") if tables is not None else None
     probe_variant(ck)
     if obj.get("source"):
         oracle_on_sources(ck, [("replay", "", obj["source"])], "er", "replay")
